@@ -174,8 +174,8 @@ class _FileProxy:
 def _configure_mode(clsname, mode):
     """mode: 'wc' (write_concern, threading off) | 'thr' (threading on) | 'both' | 'inplace'"""
     k = env.cls(clsname)
-    if mode in ("wc", "inplace"):
-        k.disable_multithreading()
+    if mode in ("wc", "inplace", "thr-late"):
+        k.disable_multithreading()  # 'thr-late': objects are CONSTRUCTED while it is off, enabled afterwards
     else:
         k.enable_multithreading()
     return mode in ("wc", "both")
@@ -188,6 +188,8 @@ def run_window(scn, paths, hooks, traced):
     cfg2 = seq.Config(cfg.clsname, initial=cfg.initial, objects=cfg.objects, prefix=cfg.prefix, write_concern=wc)
     resources = [env.FileResource(env.ABSENT, name=p) for p in paths]
     world = seq.World(cfg2, resources=resources)
+    if scn["mode"] == "thr-late":
+        env.cls(cfg.clsname).enable_multithreading()
     for ev in cfg2.prefix:
         world.apply(ev)
     for ev in scn.get("pre", ()):
